@@ -44,6 +44,44 @@ func resultType(c *ssa.CallCommon) types.Type {
 }
 
 func (fr *Frame) callVals(c *ssa.CallCommon, fv *Val, args []*Val, argVals []ssa.Value, pos token.Pos) *Val {
+	res := fr.callVals1(c, fv, args, argVals, pos)
+	what := ""
+	if c.IsInvoke() {
+		what = ifaceMethodName(c)
+	} else if sc := c.StaticCallee(); sc != nil {
+		what = sc.String()
+	} else if fv != nil && fv.Fn != nil {
+		what = fv.Fn.String()
+	} else if c.Value != nil {
+		what = "dynamic " + c.Value.Name()
+		if u, ok := c.Value.(*ssa.UnOp); ok {
+			if fa, ok := u.X.(*ssa.FieldAddr); ok {
+				if st, ok := deref(fa.X.Type()).Underlying().(*types.Struct); ok {
+					what = "dynamic field " + st.Field(fa.Field).Name()
+				}
+			}
+		}
+	}
+	if what != "" {
+		bind := map[string]*Val{}
+		for i, a := range args {
+			bind[fmt.Sprintf("arg%d", i)] = a
+		}
+		if res != nil {
+			if len(res.Tup) > 0 {
+				for i, r := range res.Tup {
+					bind[fmt.Sprintf("res%d", i)] = r
+				}
+			} else {
+				bind["res0"] = res
+			}
+		}
+		fr.ghostAfter("call", what, bind)
+	}
+	return res
+}
+
+func (fr *Frame) callVals1(c *ssa.CallCommon, fv *Val, args []*Val, argVals []ssa.Value, pos token.Pos) *Val {
 	vc := fr.vc
 	if b, ok := c.Value.(*ssa.Builtin); ok && !c.IsInvoke() {
 		return fr.builtin(b, c, args, argVals, pos)
@@ -77,6 +115,7 @@ func (fr *Frame) callVals(c *ssa.CallCommon, fv *Val, args []*Val, argVals []ssa
 		}
 		fr.safety("nil", "invoke "+c.Method.Name(), pos, not(eq(sx("itag", recv.T), "0")))
 		if ic := vc.eng.ifaceContract(c); ic != nil {
+			fr.ifaceModSet = vc.eng.invokeModSet(c)
 			return fr.contractCall(ic, nil, append([]*Val{recv}, args...), rt, pos, name)
 		}
 		// closed-world dispatch over implementers with contracts is not attempted here:
@@ -95,6 +134,31 @@ func (fr *Frame) callVals(c *ssa.CallCommon, fv *Val, args []*Val, argVals []ssa
 	}
 	if f, ok := c.Value.(*ssa.Function); ok {
 		callee = f
+	}
+	if callee == nil {
+		// x.cancel() where the contracts declare `cancelof T.cancel: ctx`: marks x.ctx done
+		if u, ok := c.Value.(*ssa.UnOp); ok {
+			if fa, ok := u.X.(*ssa.FieldAddr); ok {
+				if n := namedOf(fa.X.Type()); n != nil && n.Obj().Pkg() != nil {
+					if pc := vc.eng.contracts[n.Obj().Pkg().Path()]; pc != nil {
+						st := n.Underlying().(*types.Struct)
+						if ctxField, ok := pc.CancelOf[n.Obj().Name()+"."+st.Field(fa.Field).Name()]; ok {
+							for i := 0; i < st.NumFields(); i++ {
+								if st.Field(i).Name() == ctxField {
+									hn := fieldHeapName(n, i)
+									cv := sel(vc.heap(fr.st, hn, arrSort(SInt, SIface)), fr.val(fa.X).T)
+									cd := vc.heap(fr.st, ctxDoneHeap, ctxDoneSort)
+									vc.setHeap(fr.st, ctxDoneHeap, ctxDoneSort, ite(fr.reach, store(cd, cv, "true"), cd))
+									vc.externals["cancelof "+n.Obj().Name()+"."+st.Field(fa.Field).Name()+" (assumed: the field holds the cancel function of "+ctxField+")"] = true
+									fr.safety("nil", "call func value", pos, not(eq(fv.T, "0")))
+									return nil
+								}
+							}
+						}
+					}
+				}
+			}
+		}
 	}
 	if callee == nil && fv != nil && fv.PureFn {
 		if rt == nil {
